@@ -324,14 +324,15 @@ impl Prop for C14 {
                         Err(ExpErr::CommandClass) => "wrong_type".into(),
                         _ => "none".into(),
                     });
+                if o.result.is_err() && s.msg.units.iter().any(|u| u.params.iter().any(crate::model::nondec_wide)) {
+                    stats.probe("non_decimal_literal_wider_than_64_bits");
+                }
                 match (&pred.result, &o.result) {
                     (Err(exp), Err(e)) => {
                         stats.state_str(&format!("{}|{}", kind, e.code));
                         let want_cmd = matches!(exp, ExpErr::CommandClass | ExpErr::Code(-113) | ExpErr::Code(-108) | ExpErr::Code(-109));
                         let want_exec = matches!(exp, ExpErr::ExecClass | ExpErr::Code(-225));
-                        if want_exec && s.msg.units.iter().any(|u| u.params.iter().any(crate::model::nondec_wide)) {
-                            stats.probe("non_decimal_literal_wider_than_64_bits");
-                        }
+
                         if want_cmd {
                             stats.probe("library_command_error");
                             if !is_command_error(e.code) {
